@@ -1336,6 +1336,49 @@ static int state_sync_process(struct snapraid_state* state, struct snapraid_pari
 
 			msg_progress("Autosaving...\n");
 
+			/* stop all the worker threads, waiting for the completion */
+			/* of the parity writes still queued, because the content file */
+			/* is going to record as synced all the blocks processed until now */
+			io_stop(&io);
+			io_stopped = 1;
+
+			/* count the errors of the parity writes just completed */
+			io_write_flush_errors(&io, writer_error);
+
+			/* mark as bad the blocks with a failed parity write */
+			while (io_write_bad(&io, &blockbad))
+				info_set(&state->infoarr, blockbad, info_set_bad(info_get(&state->infoarr, blockbad)));
+
+			for (j = 0; j < IO_WRITER_ERROR_MAX; ++j) {
+				if (writer_error[j]) {
+					switch (j + IO_WRITER_ERROR_BASE) {
+					case TASK_STATE_IOERROR_CONTINUE :
+						++io_error;
+						if (io_error >= state->opt.io_error_limit) {
+							/* LCOV_EXCL_START */
+							log_fatal("DANGER! Unexpected input/output write error in a parity disk, it isn't possible to sync.\n");
+							log_fatal("Stopping at block %u\n", blockcur);
+							goto bail;
+							/* LCOV_EXCL_STOP */
+						}
+						break;
+					case TASK_STATE_ERROR_CONTINUE :
+						++error;
+						break;
+					case TASK_STATE_IOERROR :
+						/* LCOV_EXCL_START */
+						++io_error;
+						goto bail;
+						/* LCOV_EXCL_STOP */
+					case TASK_STATE_ERROR :
+						/* LCOV_EXCL_START */
+						++error;
+						goto bail;
+						/* LCOV_EXCL_STOP */
+					}
+				}
+			}
+
 			/* before writing the new content file we ensure that */
 			/* the parity is really written flushing the disk cache */
 			for (l = 0; l < state->level; ++l) {
@@ -1354,6 +1397,10 @@ static int state_sync_process(struct snapraid_state* state, struct snapraid_pari
 
 			/* now we can safely write the content file */
 			state_write(state);
+
+			/* restart the worker threads from the next block */
+			io_start(&io, blockcur + 1, blockmax, block_enabled);
+			io_stopped = 0;
 
 			state_progress_restart(state);
 
